@@ -491,10 +491,21 @@ class _Audit(object):
                 idxs = MUTATING_OS[event]
                 if isinstance(idxs, int):
                     idxs = (idxs,)
+                # shutil.rmtree walks with directory descriptors: its os.unlink / os.rmdir / os.mkdir calls name their target
+                # RELATIVE to a dir_fd (the last audit argument) -- resolved through /proc, not against the working directory
+                base = None
+                if event in ("os.remove", "os.unlink", "os.rmdir", "os.mkdir") and isinstance(args[-1], int) and args[-1] >= 0 and len(args) > 1:
+                    try:
+                        base = os.readlink("/proc/self/fd/%d" % args[-1])
+                    except OSError:
+                        base = None
                 for i in idxs:
                     if i < len(args) and args[i] is not None and not isinstance(args[i], int):
+                        pth = os.fsdecode(args[i])
+                        if base is not None and not os.path.isabs(pth):
+                            pth = os.path.join(base, pth)
                         self.events.append({"ev": event.split(".")[1].capitalize(),
-                                            "path": os.path.abspath(os.fsdecode(args[i]))})
+                                            "path": os.path.abspath(pth)})
         except Exception:
             pass
 
